@@ -9,6 +9,7 @@ import (
 	"math/big"
 	"os"
 	"strconv"
+	"strings"
 
 	z "github.com/Oudwins/zog"
 )
@@ -59,6 +60,7 @@ var pointValues = map[string][]string{
 	"-1e300":    {"-1000000000000000052504760255204420248704468581108159154915854115111802457988908195786371375080447864043704443832883878176942523235360430575644792184786706982848387200926575803737830233794788090059368953234970799945081119038967640880074652742780142494579258788820056842838115669472196386865459400540160"},
 	"-2^128":    {"-340282366920938463463374607431768211456", "-680564733841876926926749214863536422912"},
 	"-maxF32":   {"-340282346638528859811704183484516925440"},
+	"1e400":     {"1" + strings.Repeat("0", 400), "-25" + strings.Repeat("0", 309), "17976931348623159" + strings.Repeat("0", 292)},
 	"NaN":       {"NaN"},
 	"+Inf":      {"+Inf"},
 	"-Inf":      {"-Inf"},
@@ -144,6 +146,9 @@ func concRep(rep, s string) (any, bool) {
 			return nil, false
 		}
 		e := strconv.FormatFloat(f64, 'e', -1, 64)
+		if math.IsInf(f64, 0) {
+			e = bf.Text('e', -1) // beyond float64: the exponent form of the exact number
+		}
 		if back, _, _ := big.ParseFloat(e, 10, 2048, big.ToNearestEven); back.Cmp(bf) != 0 {
 			return nil, false
 		}
